@@ -107,6 +107,9 @@ func (m *InMemoryStore) InsertLogs(ctx context.Context, logs ...*ledger.ChainedL
 				PreCommitVolumes:  nil,
 				PostCommitVolumes: nil,
 			})
+			for address, md := range payload.AccountMetadata {
+				m.saveAccountMetadata(address, md)
+			}
 		case ledger.RevertedTransactionLogPayload:
 			tx := collectionutils.Filter(m.transactions, func(transaction *ledger.ExpandedTransaction) bool {
 				return transaction.ID.Cmp(payload.RevertedTransactionID) == 0
@@ -119,9 +122,60 @@ func (m *InMemoryStore) InsertLogs(ctx context.Context, logs ...*ledger.ChainedL
 				PostCommitVolumes: nil,
 			})
 		case ledger.SetMetadataLogPayload:
+			switch payload.TargetType {
+			case ledger.MetaTargetTypeAccount:
+				if address, ok := payload.TargetID.(string); ok {
+					m.saveAccountMetadata(address, payload.Metadata)
+				}
+			case ledger.MetaTargetTypeTransaction:
+				if tx := m.findTransaction(payload.TargetID); tx != nil {
+					tx.Metadata = tx.Metadata.Merge(payload.Metadata)
+				}
+			}
+		case ledger.DeleteMetadataLogPayload:
+			switch payload.TargetType {
+			case ledger.MetaTargetTypeAccount:
+				if address, ok := payload.TargetID.(string); ok {
+					for _, account := range m.accounts {
+						if account.Address == address {
+							delete(account.Metadata, payload.Key)
+						}
+					}
+				}
+			case ledger.MetaTargetTypeTransaction:
+				if tx := m.findTransaction(payload.TargetID); tx != nil {
+					delete(tx.Metadata, payload.Key)
+				}
+			}
 		}
 	}
 
+	return nil
+}
+
+func (m *InMemoryStore) saveAccountMetadata(address string, md metadata.Metadata) {
+	for _, account := range m.accounts {
+		if account.Address == address {
+			account.Metadata = account.Metadata.Merge(md)
+			return
+		}
+	}
+	m.accounts = append(m.accounts, &ledger.Account{
+		Address:  address,
+		Metadata: metadata.Metadata{}.Merge(md),
+	})
+}
+
+func (m *InMemoryStore) findTransaction(id any) *ledger.ExpandedTransaction {
+	txID, ok := id.(*big.Int)
+	if !ok {
+		return nil
+	}
+	for _, transaction := range m.transactions {
+		if transaction.ID.Cmp(txID) == 0 {
+			return transaction
+		}
+	}
 	return nil
 }
 
